@@ -636,7 +636,9 @@ def run(ctx):
             f"{maxlen + 1} (running and idle RE), SuspendWhenChanged over expected/initial/values in [0, 1, '', 'a', False, 2.5]"
         )
         ctx.extra["exhaustive_part"] = len(cases)
-        ctx.hyp(_strategy, check_case, max_examples=ctx.pick(5000, 150000))
+        # several moderate Hypothesis runs instead of one huge one: per-example cost grows with the size of a run
+        for r in range(ctx.pick(1, 5)):
+            ctx.hyp(_strategy, check_case, max_examples=ctx.pick(5000, 30000), tag=f"r{r}" if r else "")
     finally:
         _stop_loop()
 
